@@ -532,6 +532,34 @@ example : arcfsDepack exEnv (exArcfsZero.set 169 0xc0) = some [0x61, 0xc0, 0xe8]
 example : bzDepack [(0#32, [0x61, 0xa0, 0xc3, 0x00, 0xdd])] 0#32 = some [0x61, 0xa0, 0xc3, 0x00, 0xdd] := by decide +kernel
 example : bzDepack [(0#32, [0x61, 0xa0, 0xc3, 0x00, 0xdc])] 0#32 = none := by decide +kernel
 
+/-! ### nesting: `abc` as a stored member two directories deep (written by tools/c08_writers.arc_tree) -/
+def exEnvX : ArcEnv := { unpack := fun _ _ _ _ => none, excl := fun n => n == [0x52, 0x45, 0x41, 0x44, 0x4d, 0x45], limit := 512 * 2 ^ 20 }
+/-- ARC 6: README, DIR0 (type 30) { DIR1 (type 30) { SONG.MOD } 1a 1f } 1a 1f, 1a 00 -/
+def exArc6Nested : Bytes := [0x1a, 0x02, 0x52, 0x45, 0x41, 0x44, 0x4d, 0x45, 0x00, 0x00, 0x00, 0x00, 0x00, 0x00, 0x00, 0x02, 0x00,
+  0x00, 0x00, 0x21, 0x20, 0x00, 0x00, 0xef, 0xee, 0x02, 0x00, 0x00, 0x00, 0x68, 0x69, 0x1a, 0x1e, 0x44, 0x49, 0x52, 0x30, 0x00,
+  0x00, 0x00, 0x00, 0x00, 0x00, 0x00, 0x00, 0x00, 0x41, 0x00, 0x00, 0x00, 0x21, 0x20, 0x00, 0x00, 0xa4, 0x36, 0x41, 0x00, 0x00,
+  0x00, 0x1a, 0x1e, 0x44, 0x49, 0x52, 0x31, 0x00, 0x00, 0x00, 0x00, 0x00, 0x00, 0x00, 0x00, 0x00, 0x22, 0x00, 0x00, 0x00, 0x21,
+  0x20, 0x00, 0x00, 0x64, 0x82, 0x22, 0x00, 0x00, 0x00, 0x1a, 0x02, 0x53, 0x4f, 0x4e, 0x47, 0x2e, 0x4d, 0x4f, 0x44, 0x00, 0x00,
+  0x00, 0x00, 0x00, 0x03, 0x00, 0x00, 0x00, 0x21, 0x20, 0x00, 0x00, 0x38, 0x97, 0x03, 0x00, 0x00, 0x00, 0x61, 0x62, 0x63, 0x1a,
+  0x1f, 0x1a, 0x1f, 0x1a, 0x00]
+example : arcDepack exEnvX exArc6Nested = some exPayload := by decide +kernel
+example : arcDepack exEnvX (exArc6Nested.set 119 0x63) = none := by decide +kernel   -- nested member data
+example : arcDepack exEnvX (exArc6Nested.set 112 0x39) = none := by decide +kernel   -- nested member CRC-16
+/-- the directory record's own CRC-16 (offset 54: of the nested archive) is never read -/
+example : arcDepack exEnvX (exArc6Nested.set 54 0xa5) = some exPayload := by decide +kernel
+/-- Spark: README, DIR0 (0x82, &DDC) { DIR1 { SONG.MOD } 1a 80 } 1a 80, 1a 80 -/
+def exSparkNested : Bytes := [0x1a, 0x82, 0x52, 0x45, 0x41, 0x44, 0x4d, 0x45, 0x00, 0x00, 0x00, 0x00, 0x00, 0x00, 0x00, 0x02,
+  0x00, 0x00, 0x00, 0x21, 0x20, 0x00, 0x00, 0xef, 0xee, 0x02, 0x00, 0x00, 0x00, 0x00, 0xfd, 0xff, 0xff, 0x00, 0x00, 0x00, 0x00,
+  0x00, 0x00, 0x00, 0x00, 0x68, 0x69, 0x1a, 0x82, 0x44, 0x49, 0x52, 0x30, 0x00, 0x00, 0x00, 0x00, 0x00, 0x00, 0x00, 0x00, 0x00,
+  0x59, 0x00, 0x00, 0x00, 0x21, 0x20, 0x00, 0x00, 0x1a, 0xff, 0x59, 0x00, 0x00, 0x00, 0x42, 0xdc, 0xfd, 0xff, 0x00, 0x00, 0x00,
+  0x00, 0x03, 0x00, 0x00, 0x00, 0x1a, 0x82, 0x44, 0x49, 0x52, 0x31, 0x00, 0x00, 0x00, 0x00, 0x00, 0x00, 0x00, 0x00, 0x00, 0x2e,
+  0x00, 0x00, 0x00, 0x21, 0x20, 0x00, 0x00, 0x69, 0x16, 0x2e, 0x00, 0x00, 0x00, 0x42, 0xdc, 0xfd, 0xff, 0x00, 0x00, 0x00, 0x00,
+  0x03, 0x00, 0x00, 0x00, 0x1a, 0x82, 0x53, 0x4f, 0x4e, 0x47, 0x2e, 0x4d, 0x4f, 0x44, 0x00, 0x00, 0x00, 0x00, 0x00, 0x03, 0x00,
+  0x00, 0x00, 0x21, 0x20, 0x00, 0x00, 0x38, 0x97, 0x03, 0x00, 0x00, 0x00, 0x00, 0xfd, 0xff, 0xff, 0x00, 0x00, 0x00, 0x00, 0x00,
+  0x00, 0x00, 0x00, 0x61, 0x62, 0x63, 0x1a, 0x80, 0x1a, 0x80, 0x1a, 0x80]
+example : arcDepack exEnvX exSparkNested = some exPayload := by decide +kernel
+example : arcDepack exEnvX (exSparkNested.set 167 0x63) = none := by decide +kernel  -- nested member data
+
 /-! ## rejection -/
 
 theorem toNat32_ne {a b : BitVec 32} (h : a ≠ b) : a.toNat ≠ b.toNat := fun e => h (BitVec.eq_of_toNat_eq e)
@@ -840,6 +868,29 @@ theorem C09_member_selection_final :
         lzxLoop env f (fuel + 1) pos mg =
           lzxExtract env f (lzxDataPos f pos) (le32 f (pos + 6)) (u8 f (pos + 11)) (lzxEntryCheck env f pos mg).1) :=
   ⟨arcLoop_selected, arcfsLoop_selected, lzxLoop_selected⟩
+
+/-- **ARC 6 / Spark: the CRC-16 is compared at every nesting depth.**  `arc_read` walks directory
+    records (ARC 6 type 30 … 31, Spark method 0x82 with filetype &DDC) in place, counting the depth
+    in `level`; whatever the depth the entry loop is at (`level` arbitrary) and wherever it stands
+    (`pos` arbitrary), an accepted output passed the CRC-16 field of the entry it was extracted from —
+    the directory records' own CRC-16 (of the nested archive) is never consulted and never stands in
+    for a member's. -/
+theorem C09_gate_arc_every_depth (env : ArcEnv) (f out : Bytes) (fuel pos level : Nat)
+    (h : arcLoop env f fuel pos level = some out) : ∃ p, le16 f (p + 23) = (crc16IBM out 0).toNat :=
+  gate_arcLoop env f out fuel pos level h
+
+/-- … and the selected entry's verdict does not depend on the depth: at any `level`, the loop's
+    result at an entry it extracts is `arcExtractAt` (unpack, then CRC-16 of the output against the
+    entry's field), which does not mention `level`; hence damaged data of a nested member is refused
+    exactly like that of a top-level member. -/
+theorem C09_reject_arc_every_depth (env : ArcEnv) (f orig out : Bytes) (fuel pos level : Nat)
+    (hs : ∀ p, le16 f (p + 23) = (crc16IBM orig 0).toNat ∨ le16 f (p + 23) ≠ (crc16IBM out 0).toNat)
+    (hb : BitBurst 16 orig out) : arcLoop env f fuel pos level ≠ some out := by
+  intro h
+  obtain ⟨p, hc⟩ := C09_gate_arc_every_depth env f out fuel pos level h
+  rcases hs p with h1 | h1
+  · exact toNat16_ne (C09_crc16_detects orig out 0 hb) (h1.symm.trans hc)
+  · exact h1 hc
 
 /-- **C09_reject** — the summary used by the check: for the three check codes, a gate that only
     accepts `stored = check(out)` never accepts an output within one burst of the payload whose
